@@ -336,7 +336,8 @@ def judge_contract(out):
                 bad.append(('C06:stream-ended-but-timeout-reported-instead-of-data-or-eof', i))
         elif c['kind'] == 'BLOCK':
             if c['tmo'] != -1:
-                bad.append(('C05:blocks-after-hangup-without-exit' if not c.get('peer_open_before', True) else 'C05:blocks-past-the-deadline', i))
+                # (blocked while the peer is still connected: e.g. inside a read on a descriptor that is not readable)
+                bad.append(('C05:blocks-after-hangup-without-exit' if not c['peer_open'] else 'C05:blocks-past-the-deadline', i))
         elif c['kind'].startswith('ERR:'):
             bad.append(('C05:poll-raises-other-exception' if c['tmo'] == 0 else 'C04:other-exception-instead-of-eof-or-timeout', i))
             if c.get('tail'):
